@@ -9,6 +9,7 @@ from harness import codes as K
 from harness.core import Stream
 from harness.props.c02 import cstr, coords_str, op_str, ops_str
 from harness.util import guarded
+from harness.lat_cubic3d import rank_post
 
 EXC = {'ValueError': 'ERR value'}
 AXES = ['x', 'y', 'z']
@@ -57,6 +58,9 @@ def class_streams(ctx, cls, bad_locations, extra_sizes=()):
     axis = Stream(f'lat-{cls}-axis-type')
     deform = Stream(f'lat-{cls}-get_deformation')
     errs = Stream(f'lat-{cls}-error-paths')
+    # the model's `selStabs` (theorem `generators_independent`) evaluated on the IMPLEMENTATION's
+    # parity-check matrix: members n - k, all distinct stabilizer locations, GF(2) rank n - k
+    rank = Stream(f'lat-{cls}-rank-family', post=rank_post(klass))
     for size, tag in size_plan(ctx, cls, extra_sizes):
         pre = f'lat {cls} ' + ' '.join(map(str, size)) + ' '
         desc = {'class': cls, 'size': list(size)}
@@ -73,6 +77,11 @@ def class_streams(ctx, cls, bad_locations, extra_sizes=()):
         coords.add(pre + 'logz', guarded(lambda: ops_str(code.get_logicals_z())), desc, tag=tag)
         coords.add(pre + 'n', guarded(lambda: str(int(code.n))), desc, nontrivial=False)
         coords.add(pre + 'k', guarded(lambda: str(int(code.k))), desc, nontrivial=False)
+        if tag != 'outside-family':
+            nk = guarded(lambda: code.n - code.k)
+            rank.add(pre + 'rankfamily', f'members {nk} rank {nk}',
+                     dict(desc, what='independent family of n-k generators (theorem generators_independent) '
+                          'evaluated on stabilizer_matrix'), tag=tag)
         for loc in ss:
             d = dict(desc, location=list(map(int, loc)))
             stab.add(pre + 'stab ' + cstr(loc), guarded(lambda: op_str(code.get_stabilizer(loc)), EXC), d, tag=tag)
@@ -90,6 +99,14 @@ def class_streams(ctx, cls, bad_locations, extra_sizes=()):
                            guarded(lambda: _deform_str(code.get_deformation(loc, nm, deformation_axis=ax)), EXC),
                            dict(d, name=nm, axis=ax), nontrivial=(nm in klass.deformation_names and ax != 'w'),
                            tag=f'{nm}/{ax}')
+            # the keyword omitted: the default `deformation_axis` of the signature (driver axis `-`)
+            for nm in names:
+                if big and nm not in klass.deformation_names and qi % 7:
+                    continue
+                deform.add(pre + f'deform {nm} - ' + cstr(loc),
+                           guarded(lambda: _deform_str(code.get_deformation(loc, nm)), EXC),
+                           dict(d, name=nm, axis=None), nontrivial=(nm in klass.deformation_names),
+                           tag=f'{nm}/default-axis')
         # error paths: getters on locations of the wrong kind
         bad = list(bad_locations(code))
         for loc in (qs[:3] + qs[-2:] + bad):
@@ -107,6 +124,9 @@ def class_streams(ctx, cls, bad_locations, extra_sizes=()):
             errs.add(pre + 'deform XZZX z ' + cstr(loc),
                      guarded(lambda: _deform_str(code.get_deformation(loc, 'XZZX', deformation_axis='z')), EXC), d,
                      nontrivial=False, tag='deform-on-nonqubit')
-    for s in (coords, stab, axis, deform, errs):
+            errs.add(pre + 'deform XZZX - ' + cstr(loc),
+                     guarded(lambda: _deform_str(code.get_deformation(loc, 'XZZX')), EXC), d,
+                     nontrivial=False, tag='deform-default-axis-on-nonqubit')
+    for s in (coords, stab, axis, deform, errs, rank):
         out.append(s.run())
     return out
